@@ -6,6 +6,7 @@ import (
 	"reflect"
 	"sort"
 	"testing"
+	"time"
 	"unicode/utf8"
 
 	"github.com/vapourismo/knx-go/knx/dpt"
@@ -31,6 +32,8 @@ type c07Plan struct {
 	// SHex: the string's bytes when they are not well-formed UTF-8 (a Go string is an arbitrary byte sequence: Latin-1
 	// bytes cast to string, a string cut inside a multi-byte character); overrides S
 	SHex string `json:"s_hex,omitempty"`
+	// Zone: the process's local time zone during the case ("" = unchanged)
+	Zone string `json:"zone,omitempty"`
 }
 
 func typeByName(name string) (typeInfo, bool) {
@@ -316,6 +319,13 @@ func c07Run(p c07Plan) *common.Fail {
 		return common.Failf("type-missing", "type %q is not registered", p.Type)
 	}
 	a, b := produce(ti.Name), produce(ti.Name)
+	if p.Zone != "" {
+		if loc, err := time.LoadLocation(p.Zone); err == nil {
+			saved := time.Local
+			time.Local = loc
+			defer func() { time.Local = saved }()
+		}
+	}
 	switch p.Mode {
 	case "float":
 		if ti.Kind != reflect.Float32 {
@@ -474,7 +484,28 @@ func TestC07(t *testing.T) {
 			rec.ClassN("enum-scaled-or-f16", evals)
 			rec.NonTrivialEnum(evals)
 		case ti.Kind == reflect.String:
-			// rapid part below
+			// every sequence of up to 4 text units (byte order marks, blanks, invisible and ordinary characters, what a text
+			// taken from a file or an export starts and ends with); random texts in the rapid part below
+			if !mine() {
+				continue
+			}
+			units := []string{"\ufeff", "\ufffe", "A", "\u00e9", "\u200b", "\u00a0", " ", "\t", "\r\n", "\x00", "0", "\u00ff"}
+			var texts int64
+			var rec3 func(tx string, n int)
+			rec3 = func(tx string, n int) {
+				texts++
+				report(ti, guard(func() *common.Fail { return c07String(ti, a, b, tx) }), c07Plan{Type: ti.Name, Mode: "string", S: tx})
+				if n == 0 {
+					return
+				}
+				for _, u := range units {
+					rec3(tx+u, n-1)
+				}
+			}
+			rec3("", 4)
+			evals += texts
+			rec.ClassN("enum-text-units", texts)
+			rec.NonTrivialEnum(texts)
 		case ti.Kind == reflect.Struct:
 			if !mine() {
 				continue
@@ -592,6 +623,40 @@ func TestC07(t *testing.T) {
 	rec.Sample("out-of-range", c07Plan{Type: "8.003", Mode: "float", X: math.Float32bits(400)})
 	rec.Sample("fields", c07Plan{Type: "11.001", Mode: "fields", F: []int64{2023, 2, 29}})
 
+	// dates under local time zones whose calendar has days without a midnight (or without existence): every date
+	// 1990-01-01..2089-12-31 encodes and decodes back whatever the process's zone is
+	if rec.Env.Shard == 0 {
+		if ti, ok := typeByName("11.001"); ok {
+			a, b := produce(ti.Name), produce(ti.Name)
+			var n int64
+			stopZ := false
+			missing := underZones(func(zone string) {
+				for y := 1990; y <= 2089 && !stopZ; y++ {
+					for m := 1; m <= 12; m++ {
+						for d := 1; d <= 31; d++ {
+							if !validDate(y, m, d) {
+								continue
+							}
+							n++
+							if f := guard(func() *common.Fail { return c07Fields(ti, a, b, []int64{int64(y), int64(m), int64(d)}) }); f != nil {
+								f.Detail += fmt.Sprintf(" (with the process's local time zone set to %s)", zone)
+								common.Report(t, rec, f, c07Plan{Type: ti.Name, Mode: "fields", F: []int64{int64(y), int64(m), int64(d)}, Zone: zone})
+								stopZ = true
+								return
+							}
+						}
+					}
+				}
+			})
+			rec.Eval(n)
+			rec.NonTrivialEnum(n)
+			rec.ClassN("dates-under-local-zones", n)
+			if len(missing) > 0 {
+				rec.Note(fmt.Sprintf("time zones not available: %v", missing))
+			}
+			rec.Exhaustive(fmt.Sprintf("11.001: every date 1990-01-01..2089-12-31 under %d local time zones (among them zones where daylight saving starts at midnight and one that skipped a day)", len(zonesWithOddMidnights)-len(missing)))
+		}
+	}
 	// rapid part ------------------------------------------------------------------------------------------
 	var floatT, strT, structT, intT []typeInfo
 	for _, ti := range types {
